@@ -547,3 +547,133 @@ def c16_copies(clsname, text, validate):
         if clsname == "IBAN" and (type(y.bban) is not type(x.bban) or y.bban != x.bban or y.bban.country_code != x.bban.country_code):
             return name + " bban"
     return "ok"
+
+
+def c18_merge(left_json, right_json):
+    import copy
+    import json
+
+    from schwifty import registry
+    from spec import table
+
+    left, right = json.loads(left_json), json.loads(right_json)
+    sl, sr = copy.deepcopy(left), copy.deepcopy(right)
+    out = registry.merge_dicts(left, right)
+    if out != table.deep_merge(sl, sr):
+        return "result"
+    if left != sl or right != sr:
+        return "inputs modified"
+
+    return "ok"
+
+
+def c18_get(docs_json, order_json):
+    """real registry.get on a temporary package directory holding the documents (glob order is the file system's)"""
+    import copy
+    import json
+    import os
+    import shutil
+    import tempfile
+
+    from schwifty import registry
+    from spec import table
+
+    docs = json.loads(docs_json)
+    d = tempfile.mkdtemp(prefix="c18_")
+    try:
+        os.makedirs(os.path.join(d, "stub_registry"))
+        for name in json.loads(order_json):
+            with open(os.path.join(d, "stub_registry", name), "w") as f:
+                json.dump(docs[name], f)
+        real = registry.files
+        registry.files = lambda pkg: __import__("pathlib").Path(d)
+        registry._registry.pop("stub", None)
+        try:
+            got = registry.get("stub")
+        finally:
+            registry.files = real
+            registry._registry.pop("stub", None)
+    finally:
+        shutil.rmtree(d, ignore_errors=True)
+    data = None
+    for name in sorted(docs):
+        doc = copy.deepcopy(docs[name])
+        if name[: -len(".json")].endswith("v2"):
+            out = []
+            for e in doc["entries"]:
+                base = {k: v for k, v in e.items() if k != doc["expand_from"]}
+                base.setdefault("primary", False)
+                for v in e[doc["expand_from"]]:
+                    out.append({**base, doc["expand_into"]: v})
+            doc = out
+        if data is None:
+            data = doc
+        elif isinstance(data, list):
+            data = data + doc
+        else:
+            data = table.deep_merge(data, doc)
+    return "ok" if got == data else "differs"
+
+
+def c17_country(cc):
+    """concrete re-check of a country entry on the real objects: 'ok' or the first inconsistency"""
+    import re
+
+    from schwifty import checksum, registry
+    from spec import table
+
+    spec = registry.get("iban")[cc]
+    cls = table.classes(cc)
+    n = spec.get("bban_length")
+    if cls is None or len(cls) != n:
+        return "structure length"
+    sample = "".join({"n": "0", "a": "A", "c": "A", "e": " "}[k] for k in cls)
+    if not spec["regex"].fullmatch(sample) or spec["regex"].fullmatch(sample + "0") or (sample and spec["regex"].fullmatch(sample[:-1])):
+        return "regex length"
+    if spec.get("iban_length") != n + 4 or spec["iban_length"] > 34:
+        return "iban length"
+    pos = {k: tuple(v) for k, v in spec.get("positions", {}).items()}
+    rs = sorted(v for v in pos.values() if v != (0, 0))
+    if any(not (0 <= a <= b <= n) for a, b in rs) or any(a2 < b1 for (a1, b1), (a2, b2) in zip(rs, rs[1:])):
+        return "positions"
+    algo = checksum.algorithms.get(f"{cc}:default")
+    if algo is not None:
+        explicit = any("accepts" in c.__dict__ for c in type(algo).__mro__ if c is not checksum.Algorithm and c is not object)
+        defined = {k for k, v in pos.items() if v != (0, 0)}
+        if explicit and any(str(c.value) not in defined for c in algo.accepts):
+            return "algorithm field"
+        if not any(str(c.value) in defined for c in algo.accepts):
+            return "algorithm field"
+        if type(algo).validate is checksum.Algorithm.validate and "national_checksum_digits" not in defined:
+            return "checksum field"
+    return "ok"
+
+
+def c17_bank(cc, code, bic):
+    """'ok' iff the code fits the key field, the BIC is empty or valid, and an IBAN built around the code finds a bank with it"""
+    import schwifty
+    from spec import iso9362, table
+
+    if cc not in table.countries():
+        return "country"
+    if bic and not iso9362.accepts_concrete(bic):
+        return "bic"
+    if not code:
+        return "ok"
+    ref = table.countries()[cc]
+    cls = table.classes(cc)
+    pos = table.positions(cc)
+    idx = []
+    for c in ref.get("bic_lookup_components", ["bank_code"]):
+        a, b = pos.get(c, (0, 0))
+        idx.extend(range(a, b))
+    if len(code) != len(idx) or not all(iso13616.char_in_class(ord(ch), cls[j]) for ch, j in zip(code, idx)):
+        return "code"
+    bban = ["0" if k == "n" else "A" for k in cls]
+    for ch, j in zip(code, idx):
+        bban[j] = ch
+    try:
+        x = schwifty.IBAN.from_bban(cc, "".join(bban))
+    except Exception as e:  # noqa: BLE001
+        return "iban " + type(e).__name__
+    return "ok" if x.bank is not None and x.bank["bank_code"] == code else "lookup"
